@@ -878,6 +878,7 @@ func Run(c *common.Ctx) error {
 		}
 	}
 	foreignStream(c, root)
+	postAcquireFailure(c, root)
 	if err := consulScenarios(c, c.Rng.Fork()); err != nil {
 		return fmt.Errorf("consul: %w", err)
 	}
